@@ -25,7 +25,9 @@ RULE = ('signatures: every Signature.create/sign result over keys {1, 2, n-2, n-
         'signatures made inside Transaction.sign; verifier triples: reference-signed (r,s) in forms '
         '{object, raw, raw hex, DER, DER hex} x public-key forms x classes {valid, high-S twin, r/s in {0,n,n+1,+n,negated}, '
         'swapped, wrong key, digest+-1, digest+n, off-curve / garbage public key, malformed DER, lax DER, short '
-        'DER, wrong raw length}; non-trivial = distinct (key class, digest class, nonce mode, hash-type bucket, '
+        'DER, wrong raw length}; verifier sequences: 2-5 calls on ONE Signature object (built from r,s / parsed raw / parsed DER / '
+        'parsed with key / created by the library) mixing valid, digest+-1, other digest, wrong and neighbouring key in '
+        'valid-first, invalid-first and random order, through the method and the module function, with omitted arguments; non-trivial = distinct (key class, digest class, nonce mode, hash-type bucket, '
         'form) resp. (triple class, signature form, public-key form, api)')
 TRUSTED_BASE = ['vf/refs/secp256k1.py (Jacobian arithmetic, SEC1 verify, BIP66 strict DER; self-checked on G, 2G, (n-1)G '
                 'and a sign/verify/twin vector)',
@@ -695,6 +697,133 @@ def gen_triples(rnd, n, col_unused=None):
                 made += 1
 
 
+# ------------------------------------------------------------------ verifier sequences on ONE Signature object
+SEQ_MAKES = ('obj', 'parse-raw', 'parse-der', 'parse-der+key', 'created')
+SEQ_STEPS = ('valid', 'digest+1', 'digest-1', 'other-digest', 'wrong-key', 'neighbour-key')
+
+
+def _seq_object(case):
+    """The single Signature object all steps of a sequence are asked about."""
+    import bitcoinlib.keys as K
+    make = case['make']
+    d = int(case['d'], 16)
+    z = int(case['z'], 16)
+    if make == 'created':            # signed by the library itself: carries its own digest and public key
+        sg = _ST['orig_create'](bytes.fromhex(_h32(z)), _mk_key(d, 'Key'))
+        return sg, int(sg.r), int(sg.s)
+    r, s = int(case['r']), int(case['s'])
+    if make == 'obj':
+        return K.Signature(r, s), r, s
+    if make == 'parse-raw':
+        return K.Signature.parse(r.to_bytes(32, 'big') + s.to_bytes(32, 'big')), r, s
+    der = R.der_encode(r, s) + b'\x01'
+    if make == 'parse-der':
+        return K.Signature.parse(der), r, s
+    return K.Signature.parse(der.hex(), public_key=_lib_pub(_pubspec('Key', d))), r, s
+
+
+def chk_sequence(case, col):
+    """case: {'kind':'vseq', 'make':..., 'd','z' (signer and signed digest), 'r','s' (reference signature, absent for
+    'created'), 'steps': [{'cls', 'z' or None, 'pub': pubspec or None, 'api': 'method'|'function'}]}.
+    Every call on the same object is judged against the reference for the digest and key that are current at that call
+    (an omitted argument means: the one given before, as documented for Signature.verify)."""
+    import bitcoinlib.keys as K
+    steps = case['steps']
+    ident = ('vseq', case['make'], tuple(st['cls'] for st in steps), tuple(st['api'] for st in steps),
+             tuple((st['z'] is None, st['pub'] is None) for st in steps))
+    col.case('verify-seq/%s/first-%s' % (case['make'], steps[0]['cls']), nontrivial=ident, sample=case)
+    try:
+        sg, r, s = _seq_object(case)
+    except Exception as e:
+        col.violation(None, 'building the Signature object of a verifier sequence raised %r' % (e,), case, repr(e), 'object')
+        return
+    cur_z = int(case['z'], 16) if case['make'] == 'created' else None
+    cur_pt = _pub_pt(int(case['d'], 16)) if case['make'] in ('created', 'parse-der+key') else None
+    history = []
+    for i, st in enumerate(steps):
+        if st['z'] is not None:
+            cur_z = int(st['z'], 16)
+        if st['pub'] is not None:
+            cur_pt = R.decode_pub(bytes.fromhex(st['pub']['hex']))
+        if cur_z is None or cur_pt is None:
+            col.note_inconclusive('verifier sequence step without a current digest/key (generator error)')
+            return
+        col.probe('verify_sequence_step')
+        ref_ok = R.ecdsa_verify(cur_z, r, s, cur_pt)
+        txid = None if st['z'] is None else (bytes.fromhex(st['z']) if i % 2 == 0 else st['z'])
+        try:
+            pub = None if st['pub'] is None else _lib_pub(st['pub'])
+            if st['api'] == 'function':
+                res = K.verify(txid, sg, pub) if txid is not None else sg.verify(None, pub)
+            else:
+                res = sg.verify(txid, pub)
+            verdict = 'accept' if res is True else ('reject' if res is False else 'other:%r' % (res,))
+        except Exception as e:
+            verdict = 'reject'
+            res = 'raised %s: %s' % (type(e).__name__, str(e)[:100])
+        history.append('%s/%s->%s' % (st['cls'], st['api'], verdict))
+        if verdict == ('accept' if ref_ok else 'reject'):
+            continue
+        # state ablation: the same question put to a fresh object
+        try:
+            fresh = K.Signature(r, s).verify(bytes.fromhex(_h32(cur_z)), K.Key(R.encode_pub(cur_pt).hex()))
+        except Exception as e:
+            fresh = 'raised %r' % (e,)
+        col.violation(None, 'call %d on one Signature object (%s): verifier %ss what standard ECDSA %ss; a fresh object answers %r; '
+                      'calls so far: %s' % (i + 1, case['make'], verdict, 'accept' if ref_ok else 'reject', fresh, ' , '.join(history)),
+                      dict(case, failed_step=i), res, 'accept' if ref_ok else 'reject')
+        return
+
+
+def gen_sequence(rnd):
+    d = _rand_key(rnd)
+    z = _rand_digest(rnd)
+    make = rnd.choice(SEQ_MAKES)
+    case = {'kind': 'vseq', 'make': make, 'd': '%064x' % d, 'z': _h32(z)}
+    if make != 'created':
+        k = rnd.randrange(1, N)
+        r, s = R.ecdsa_sign_with_k(z, d, k)
+        if r == 0 or s == 0:
+            return None
+        if rnd.random() < 0.5:
+            s = N - s
+        case['r'], case['s'] = str(r), str(s)
+    d2 = rnd.randrange(1, N)
+    n = rnd.choice([2, 2, 3, 3, 4, 5])
+    pattern = rnd.choice(['valid-first', 'invalid-first', 'random', 'key-walk'])
+    if pattern == 'valid-first':
+        classes = ['valid'] + [rnd.choice(SEQ_STEPS[1:]) for _ in range(n - 1)]
+    elif pattern == 'invalid-first':
+        classes = [rnd.choice(SEQ_STEPS[1:])] + ['valid'] + [rnd.choice(SEQ_STEPS) for _ in range(n - 2)]
+    elif pattern == 'key-walk':
+        classes = [rnd.choice(['valid', 'wrong-key', 'neighbour-key']) for _ in range(n)]
+    else:
+        classes = [rnd.choice(SEQ_STEPS) for _ in range(n)]
+    steps = []
+    last_z = z if make == 'created' else None
+    last_d = d if make in ('created', 'parse-der+key') else None
+    for cls in classes:
+        zz, dd = z, d
+        if cls == 'digest+1':
+            zz = (z + 1) % 2 ** 256
+        elif cls == 'digest-1':
+            zz = (z - 1) % 2 ** 256
+        elif cls == 'other-digest':
+            zz = rnd.getrandbits(256)
+        elif cls == 'wrong-key':
+            dd = d2
+        elif cls == 'neighbour-key':
+            dd = d % (N - 1) + 1
+        # an argument may be omitted when it is the one already known to the object
+        zs = None if (last_z == zz and rnd.random() < 0.4) else _h32(zz)
+        ps = None if (last_d == dd and rnd.random() < 0.4) else _pubspec(rnd.choice(['Key', 'HDKey', 'bytes', 'bytes-unc']), dd)
+        api = rnd.choice(['method', 'method', 'function'])
+        steps.append({'cls': cls, 'z': zs, 'pub': ps, 'api': api})
+        last_z, last_d = zz, dd
+    case['steps'] = steps
+    return case
+
+
 # ------------------------------------------------------------------ in-library signing (Transaction.sign -> sign())
 def tx_workload(rnd, n, col):
     from bitcoinlib.transactions import Transaction
@@ -726,7 +855,9 @@ def plan(tier, seed, scale=1.0):
     nshard = 16
     per_sig = int((12500 if thorough else 260) * scale)
     per_tri = int((14000 if thorough else 400) * scale)
-    return [{'shard': i, 'nshard': nshard, 'n_sig': per_sig, 'n_tri': per_tri, 'n_tx': 40 if thorough else 4} for i in range(nshard)]
+    per_seq = int((2500 if thorough else 90) * scale)
+    return [{'shard': i, 'nshard': nshard, 'n_sig': per_sig, 'n_tri': per_tri, 'n_seq': per_seq, 'n_tx': 40 if thorough else 4}
+            for i in range(nshard)]
 
 
 def _rand_key(rnd):
@@ -761,7 +892,8 @@ def run_shard(spec, col):
         col.note_inconclusive('library runs without fastecdsa; this check judges the fastecdsa code path')
     install(col)
     for p in ('Signature.create', 'sign', 'signature_judged', 'range', 'ref_verify', 'low_s', 'strict_der', 'hash_type_byte',
-              'determinism', 'nonce_table', 'explicit_k', 'self_verify', 'verify_differential', 'digest_forms', 'tx_sign'):
+              'determinism', 'nonce_table', 'explicit_k', 'self_verify', 'verify_differential', 'verify_sequence_step', 'digest_forms',
+              'tx_sign'):
         col.require(p)
     if 'bitcoinlib.transactions' not in _ST['namespaces'] or 'bitcoinlib.keys' not in _ST['namespaces']:
         col.note_inconclusive('sign() was not found in the expected namespaces: %r' % (_ST['namespaces'],))
@@ -839,6 +971,11 @@ def run_shard(spec, col):
     # verifier differential
     for case in gen_triples(rnd, spec['n_tri']):
         chk_triple(case, col)
+    # verifier sequences: several digests / keys asked of ONE Signature object, in varying order
+    for i in range(spec.get('n_seq', 0)):
+        case = gen_sequence(rnd)
+        if case is not None:
+            chk_sequence(case, col)
     col.extra['nonce_table_size'] = len(_ST['nonces'])
 
 
@@ -856,3 +993,5 @@ def replay(case, col):
         chk_hexcase(case, col)
     elif kind == 'verify':
         chk_triple(case, col)
+    elif kind == 'vseq':
+        chk_sequence(case, col)
